@@ -63,6 +63,10 @@ OptEncSigs ==
   \* slices and strings as Option payloads: the std spelling only (DiplomatOption is documented for primitive, enum and
   \* struct payloads); a scalar follows the option so that a wrong record size shifts it
   \cup {Sg(K("opq"), <<OptT("std", t), P("u16")>>, FALSE, UnitT) : t \in OptSlicePayload}
+  \* a VALIDATED string parameter next to a result whose success arm is unit (bindings that check the string first wrap the method's
+  \* own outcome in a second result: the inner arm must survive)
+  \cup {Sg(K("opq"), <<StrT("utf8", FALSE)>>, FALSE, r) : r \in {ResT(UnitT, EnumT), ResT(UnitT, UnitT), OptT("std", UnitT), OptT("dipl", UnitT),
+                                                                  ResT(P("u8"), EnumT), OptT("std", P("u8"))}}
   \* ... and OWNED slices and strings (Option<Box<[T]>>, Option<Box<str>>): the same option record around the same two-word view
   \cup {Sg(K("opq"), <<OptT("std", t), P("u16")>>, FALSE, UnitT) : t \in {SliceT("u8", "own"), SliceT("f64", "own"), StrT("utf8", TRUE), StrT("u16", TRUE)}}
   \cup {Sg(K("opq"), <<>>, FALSE, OptT("std", t)) : t \in {StrT("utf8", FALSE), SliceT("u8", "imm"), SliceT("f64", "imm")}}
@@ -110,6 +114,10 @@ TraitSigs ==
 WValSigs == {Sg(K("opq"), <<P("u8")>>, TRUE, r) : r \in {P("usize"), P("u32"), EnumT, StructT("Inner"), K("box"), OptT("std", P("u8")),
                                                            ResT(P("u32"), EnumT), ResT(K("box"), UnitT)}}
               \cup {Sg(K("none"), <<>>, TRUE, P("bool"))}
+\* slices and strings as ARMS of a Result return (the native result record holds the two-word view in its union)
+SlResSigs == {Sg(K("opq"), <<>>, FALSE, ResT(ab[1], ab[2])) :
+                ab \in {<<StrT("utf8", FALSE), EnumT>>, <<StrT("utf8", FALSE), UnitT>>, <<P("u8"), StrT("utf8", FALSE)>>,
+                        <<SliceT("u16", "imm"), StructT("Inner")>>, <<SliceT("u8", "imm"), P("i64")>>, <<StrT("u16", FALSE), P("bool")>>}}
 CbShape(c) == [ret |-> Shape(c.r), params |-> <<PtrS>> \o [i \in 1..Len(c.ps) |-> Shape(c.ps[i])]]
 
 VARIABLES sig, stage
@@ -121,6 +129,7 @@ Init == IF Mode = "cover" THEN sig \in CoverSigs /\ stage = "done"
         ELSE IF Mode = "trait" THEN sig \in TraitSigs /\ stage = "done"
         ELSE IF Mode = "strs" THEN sig \in StrsSigs /\ stage = "done"
         ELSE IF Mode = "wval" THEN sig \in WValSigs /\ stage = "done"
+        ELSE IF Mode = "slres" THEN sig \in SlResSigs /\ stage = "done"
         ELSE sig = Sg(K("none"), <<>>, FALSE, UnitT) /\ stage = "self"
 PickSelf == stage = "self" /\ \E sf \in SelfKinds : sig' = [sig EXCEPT !.self = sf] /\ stage' = "params"
 \* random combinations may also place a callback anywhere in the parameter list
